@@ -106,8 +106,11 @@ func (f *mFile) render() {
 	if f.broken {
 		lines = append(lines, "type")
 	}
-	f.text = strings.Join(lines, "\n")
+	f.text = strings.Join(lines, mEOL)
 }
+
+// mEOL: the line end of the rendered files (CRLF=1: Windows line ends as an alternative)
+var mEOL = "\n"
 
 func mSyntaxError(line, col int, msg string) error {
 	return &OpenFgaDslSyntaxError{line: line, column: col, msg: msg}
@@ -196,11 +199,16 @@ const mNames = "ab"
 // extensions of relation-less types and conditions.
 func mGenFiles() []*mFile {
 	mSep = []string{" ", "  ", "\t"}[zzverif.Choose("separator", 1+2*zzverif.Param("SEPS", 0))]
+	mEOL = []string{"\n", "\r\n"}[zzverif.Choose("line-end", 1+zzverif.Param("CRLF", 0))]
 	n := zzverif.Param("N", 2)
 	nr := zzverif.Param("NR", 1)
 	var files []*mFile
 	newFile := func() *mFile {
 		f := &mFile{name: fmt.Sprintf("f%d.fga", len(files)), module: fmt.Sprintf("m%d", len(files))}
+		if len(files) > 0 && zzverif.Param("SAMEMOD", 0) == 1 && zzverif.Choose("same-module", 2) == 1 {
+			// several files of one module (a layout the project supports)
+			f.module = "m0"
+		}
 		files = append(files, f)
 		return f
 	}
